@@ -33,7 +33,7 @@ use core::f64::consts::PI;
 use core::str::FromStr;
 
 // small constants / guards
-const DEG2RAD: f64 = PI / 180.0;
+pub(crate) const DEG2RAD: f64 = PI / 180.0;
 const MAX_EXPR_DEPTH: u32 = 256; // guard against deeply nested parentheses/functions
 const MAX_NUM_DIGITS: usize = 1_000_000; // cap digits in a single numeric token (DoS mitigation)
 
